@@ -45,7 +45,9 @@ Disturb(gs, except) == [j \in 1..Len(gs) |-> IF j # except /\ ~gs[j].done THEN [
 \* The fold is a STATE MACHINE (one TLC state per caller action), not a recursive operator: every step is evaluated
 \* once on concrete values (a recursive fold re-evaluates its lazily passed state and takes exponential time).
 ActStep(o, tables, W, a) ==
-  IF "err" \in DOMAIN a THEN [v |-> "raised", W |-> W]
+  \* a dump cut in the middle of a record: the listing ends with an error once the complete records are used up - that IS
+  \* its end (C06); an error anywhere else is a violation
+  IF "err" \in DOMAIN a /\ ~("cutend" \in DOMAIN a) THEN [v |-> "raised", W |-> W]
   ELSE IF a.op = "cfg" THEN
     [v |-> "ok",
      W |-> [so |-> SetCfgObj(W.so, a.cfg, a.inplace),
